@@ -314,7 +314,7 @@ def _channel_action(role, action):
             E.prove('cancel:receive_direction_closed', h.attrs['_received_complete'] is True)
             E.prove('cancel:nothing_signalled_to_the_canceller', not c.signals(remote))
             if role == 'requester':
-                E.prove('cancel:a_requesters_CANCEL_ends_the_channel[own publisher cancelled, stream released]',
+                E.prove('@C08,C09,C10:cancel:a_requesters_CANCEL_ends_the_channel[own publisher cancelled, stream released]',
                         (sc0 is True or [x[1] for x in c.signals(c.local_subscription)] == ['cancel']) and len(c.finishes()) >= 1)
             else:
                 sc, rc = flags(h)
